@@ -164,6 +164,48 @@ impl Prog {
     }
 }
 
+impl Prog {
+    /// flat encoding for the Lean `evalProg` (see lean/P2/Drv/C01.lean)
+    pub fn encode(&self) -> Vec<u64> {
+        let mut t: Vec<u64> = vec![self.tables.len() as u64];
+        for tb in &self.tables {
+            t.push(tb.len() as u64);
+            for &(a, b) in tb { t.push(a as u64); t.push(b as u64); }
+        }
+        t.push(self.ops.len() as u64);
+        let u = |x: &usize| *x as u64;
+        for op in &self.ops {
+            match op {
+                Op::Input(v) => t.extend([0, *v]),
+                Op::Const(v) => t.extend([1, *v]),
+                Op::Add(a, b) => t.extend([2, u(a), u(b)]),
+                Op::Sub(a, b) => t.extend([3, u(a), u(b)]),
+                Op::Mul(a, b) => t.extend([4, u(a), u(b)]),
+                Op::MulAdd(a, b, c) => t.extend([5, u(a), u(b), u(c)]),
+                Op::Arith(c0, c1, x, y, z) => t.extend([6, *c0, *c1, u(x), u(y), u(z)]),
+                Op::Neg(a) => t.extend([7, u(a)]),
+                Op::Div(a, b) => t.extend([8, u(a), u(b)]),
+                Op::IsEqual(a, b) => t.extend([9, u(a), u(b)]),
+                Op::Select(c, x, y) => t.extend([10, u(c), u(x), u(y)]),
+                Op::Not(a) => t.extend([11, u(a)]),
+                Op::And(a, b) => t.extend([12, u(a), u(b)]),
+                Op::Or(a, b) => t.extend([13, u(a), u(b)]),
+                Op::SplitSum(a, n) => t.extend([14, u(a), u(n)]),
+                Op::RangeCheck(a, n) => t.extend([15, u(a), u(n)]),
+                Op::RandomAccess(i, vs) => { t.extend([16, u(i), vs.len() as u64]); t.extend(vs.iter().map(u)); }
+                Op::ExpU64(a, e) => t.extend([17, u(a), *e]),
+                Op::ExpBits(a, e, n) => t.extend([18, u(a), u(e), u(n)]),
+                Op::Hash(xs) => { t.extend([19, xs.len() as u64]); t.extend(xs.iter().map(u)); }
+                Op::Lookup(tb, a) => t.extend([20, u(tb), u(a)]),
+                Op::ExtMulNorm(a, b) => t.extend([21, u(a), u(b)]),
+                Op::SplitBase4(a, l) => t.extend([22, u(a), u(l)]),
+                Op::Public(a) => t.extend([23, u(a)]),
+            }
+        }
+        t
+    }
+}
+
 /// A random, satisfiable program. `features`: bit 0 lookups, bit 1 hashing, bit 2 random access/exp.
 pub fn gen_prog(r: &mut Rng, n_ops: usize, features: u64) -> Prog {
     let mut ops: Vec<Op> = vec![];
@@ -255,6 +297,16 @@ pub fn gen_prog(r: &mut Rng, n_ops: usize, features: u64) -> Prog {
         ops.push(op);
         let p = Prog { ops: ops.clone(), tables: tables.clone() };
         vals = p.eval().0;
+    }
+    // the builder refuses a declared table that is never used ("LUT number _ is unused")
+    for tb in 0..tables.len() {
+        if !ops.iter().any(|o| matches!(o, Op::Lookup(t, _) if *t == tb)) {
+            let ent = *r.pick(&tables[tb]);
+            ops.push(Op::Input(ent.0 as u64));
+            ops.push(Op::Lookup(tb, ops.len() - 1));
+            ops.push(Op::Public(ops.len() - 1));
+            npub += 1;
+        }
     }
     if npub == 0 {
         ops.push(Op::Public(ops.len() - 1));
